@@ -127,7 +127,9 @@ remap(const char *p, char *buf, size_t bz)
 {
 /* absolute paths of the job live under the run directory */
 	if (p[0] == '/' && strncmp(p, X.rundir, strlen(X.rundir)) &&
-	    strcmp(p, "/dev/null") && strncmp(p, "/proc/", 6U)) {
+	    strcmp(p, "/dev/null") && strncmp(p, "/proc/", 6U) &&
+	    /* the time zone database is the machine's */
+	    strncmp(p, "/usr/share/zoneinfo", 19U)) {
 		snprintf(buf, bz, "%s/root%s", X.rundir, p);
 		return buf;
 	}
